@@ -170,7 +170,7 @@ def applyTable (rm : List (String × String)) (n : String) : String :=
   | none => n
 
 /-- tables of the scope bound to the node at (spec) path `s`: own table first, then the ancestors' -/
-def tablesOfNode (fin : Final) (s : SPath) : List (List (String × String)) :=
+def tablesOfNode (fin : Final) (s : SPath) : List TableEntry :=
   match scopeIdOfNode s.reverse fin.tree with
   | some i => (lookupChain fin.chains i).getD []
   | none => []
@@ -181,8 +181,8 @@ def rootTable (fin : Final) : List (String × String) :=
 
 def tauFin (fin : Final) : Tau := fun k s n =>
   match k with
-  | .var => applyTable ((tablesOfNode fin s).headD []) n
-  | .catch => applyTable ((tablesOfNode fin s).headD []) n
+  | .var => applyTable ((tablesOfNode fin s).headD (true, [])).2 n
+  | .catch => applyTable ((tablesOfNode fin s).headD (true, [])).2 n
   | .global => applyTable (rootTable fin) n
   -- the own name of a function expression is declared in the scope enclosing the function's scope
   | .self => resolveTables ((tablesOfNode fin s).tail) n
